@@ -14,7 +14,7 @@ if len(sys.argv) > 1:
     patches = [p for p in patches if os.path.basename(p)[:-5] in sys.argv[1:]]
 
 def check(p, wt, ev):
-    r = subprocess.run([V + '/bin/vlcheck', '-property', p, '-repo', wt, '-verif', ev], capture_output=True, text=True)
+    r = subprocess.run([os.environ.get('VLCHECK', V + '/bin/vlcheck'), '-property', p, '-repo', wt, '-verif', ev], capture_output=True, text=True)
     if r.returncode == 0:
         return p, None
     lines = [l for l in r.stdout.split('\n') if re.match(r'^\S+: \[', l) or re.match(r'^\S+:\d+: \[', l)]
